@@ -25,7 +25,7 @@ ASSUMPTIONS = [
     "liquidity (an integer) may differ by 1e-9 relative + 4 units between orientations (wei truncation happens on different tokens)",
 ]
 MIN_NONTRIVIAL = {"quick": 8000, "thorough": 150000}
-REQUIRED_LABELS = ["op.add_tick", "op.add_price", "op.remove", "op.collect", "op.buy", "op.sell", "op.swap", "op.rebalance", "op.add_value", "op.est_amount", "op.est_liq", "op.status", "op.bar", "region.below", "region.inside", "region.above", "at_bound", "fee.crossing", "est_liq.out_of_range"]
+REQUIRED_LABELS = ["op.add_tick", "op.add_price", "op.remove", "op.collect", "op.buy", "op.sell", "op.swap", "op.rebalance", "op.add_value", "op.est_amount", "op.est_liq", "op.status", "op.bar", "region.below", "region.inside", "region.above", "at_bound", "fee.crossing", "est_liq.out_of_range", "op.rbar"]
 
 SP = {"0.05": 10, "0.3": 60, "1": 200}
 
@@ -82,6 +82,12 @@ def st_case(draw):
             else:
                 ops.append(["est_amount", wlo, whi, draw(st.sampled_from(["100", "7"]))])
         else:
+            if draw(st.integers(0, 3)) == 0:
+                # a coarser bar: several minute rows (each with its own close and per-token volumes) merged by the package
+                mm = draw(st.sampled_from([2, 3, 5]))
+                rows = [[off_grid(center + draw(st.integers(-30 * sp, 30 * sp))), str(draw(st.sampled_from([0, 10**db, 3 * 10 ** (db + 2) + 7]))), str(draw(st.sampled_from([0, 10**dq, 5 * 10 ** (dq + 3) + 1])))] for _ in range(mm)]
+                ops.append(["rbar", mm, rows])
+                continue
             t = off_grid(center + draw(st.integers(-30 * sp, 30 * sp)))
             ops.append(["bar", t, str(draw(st.sampled_from([0, 10**db, 3 * 10 ** (db + 2) + 7]))), str(draw(st.sampled_from([0, 10**dq, 5 * 10 ** (dq + 3) + 1])))])
     return {"dq": dq, "db": db, "fee": fee, "tick": t0, "pool_liq": str(draw(st.sampled_from([10**9, 10**15, 10**21]))), "base": draw(st.sampled_from(["10", "1000"])), "quote": draw(st.sampled_from(["30000", "1000000"])), "ops": ops}
@@ -129,6 +135,25 @@ class Side:
         self.row = (ts, data)
         self.prev_tick = tick_a
         self.k += 1
+
+    def set_rbar(self, mm, rows):
+        """a bar of `mm` minute rows merged by the package's own resampling (loader-shaped frame -> market._resample)"""
+        from demeter.uniswap import UniswapMarketStatus
+
+        start = -(-self.k // mm) * mm
+        ticks = [self.t(r[0]) for r in rows]
+        vb, vq = [int(r[1]) for r in rows], [int(r[2]) for r in rows]
+        in0, in1 = (vq, vb) if not self.mirror else (vb, vq)
+        open_a = self.prev_tick if self.prev_tick is not None else rows[0][0]
+        self.m.data = world.uni_frame(self.pool, start, ticks, [int(self.case["pool_liq"])] * len(rows), in0, in1, open_tick=self.t(open_a))
+        self.m._resample(f"{mm}min")
+        assert len(self.m.data.index) == 1, self.m.data.index
+        ts = self.m.data.index[0]
+        self.price_tick_a = open_a
+        self.m.set_market_status(UniswapMarketStatus(timestamp=ts, data=None), price=None)
+        self.row = (ts, self.m.data.loc[ts].copy())
+        self.prev_tick = rows[-1][0]
+        self.k = start + mm
 
     def refresh(self):
         from demeter.uniswap import UniswapMarketStatus
@@ -219,6 +244,11 @@ class Side:
                 self.refresh()  # what the loop does after writes: own liquidity enters the active liquidity
                 m.update()
                 self.set_bar(op[1], int(op[2]), int(op[3]))
+                return "ok", {}
+            if k == "rbar":
+                self.refresh()
+                m.update()
+                self.set_rbar(op[1], op[2])
                 return "ok", {}
             raise ValueError(k)
         except Exception as e:  # noqa: an exception in one orientation must be matched in the other
@@ -318,14 +348,17 @@ def body(case, ctx: Ctx):
                     labels.add("at_bound")
             if k in ("add_price", "add_value", "est_amount", "est_liq", "status", "buy", "sell", "rebalance", "remove", "collect"):
                 helper += 1
+        if k == "rbar":
+            cur_tick = op[2][-1][0]
         if k == "bar":
             for p in A.keys:
                 if p in A.m.positions and (min(cur_tick, op[1]) < p.lower_tick <= max(cur_tick, op[1]) or min(cur_tick, op[1]) < p.upper_tick <= max(cur_tick, op[1])):
                     labels.add("fee.crossing")
             cur_tick = op[1]
-        if k == "add_value" and sa == "ok":
+        if k == "add_value":
             # an estimate-based operation: which token is left over depends on the sign of the estimate's error, so the two
-            # accounts are compared by value and the program ends here
+            # accounts are compared by value and the program ends here (also when the helper's final mint was rejected in
+            # both orientations: its preparatory swap - sized by the estimate - has happened by then)
             wa, wb = A.wallet(), B.wallet()
             va_, vb_ = wa[0] * price_now + wa[1], wb[0] * price_now + wb[1]
             ctx.check(abs(va_ - vb_) <= est_tol * wealth_q, "add_value.wallet_value", lambda: f"after {desc}: wallet worth {va_} with token0 as quote vs {vb_} in the mirror", case)
